@@ -36,6 +36,7 @@ def mc_cfg(c, emit, check):
     lines.append("  DecoySet <- %s" % c["Decoys"])
     lines.append("  DecoyRots <- %s" % c["DecoyRots"])
     lines.append("  ShiftSet <- %s" % c.get("Shifts", "ShiftQ"))
+    lines.append("  PlantRots <- %s" % c.get("PlantRots", "Rot24"))
     lines.append("  DecoyKinds = %s" % c.get("Kinds", '{"mirror", "near", "atom"}'))
     lines.append("  Emit = %s" % ("TRUE" if emit else "FALSE"))
     lines.append("  NegativeControl = %s" % c.get("Neg", "FALSE"))
